@@ -28,6 +28,10 @@ func main() {
 	switch cmd {
 	case "core-replay":
 		coreReplay(args)
+	case "pair-probe":
+		pairProbe(args)
+	case "lock-probe":
+		lockProbe(args)
 	case "robust-templates":
 		robustTemplatesCmd(args)
 	case "robust-replay":
